@@ -247,10 +247,20 @@ impl InnerNodeManage {
         if self.all_nodes.is_empty() {
             ProcessRange::new(0, 1)
         } else {
-            ProcessRange::new(
-                self.get_this_node().index as usize,
-                self.all_nodes.iter().filter(|(_, v)| v.is_valid()).count(),
-            )
+            // the position of this node among the *valid* nodes: NodeManage::route_addr picks
+            // `hash % valid.len()` in the list of valid nodes, so the owner range has to be
+            // counted over the same list (a dead node with a smaller id must not leave a gap)
+            let mut index = 0;
+            let mut len = 0;
+            for node in self.all_nodes.values() {
+                if node.is_valid() {
+                    if node.id == self.local_id {
+                        index = len;
+                    }
+                    len += 1;
+                }
+            }
+            ProcessRange::new(index, len)
         }
     }
 
